@@ -241,7 +241,18 @@ def _octahedral_from_coords(
 
     parity = int(handedness(coords[[a1, a3, a5, a4]]))
     assert parity == 1 or parity == -1
-    return Octahedral((atoms[0], a1, a2, a3, a4, a5, a6), parity)
+    return Octahedral(
+        (
+            atoms[0],
+            atoms[a1],
+            atoms[a2],
+            atoms[a3],
+            atoms[a4],
+            atoms[a5],
+            atoms[a6],
+        ),
+        parity,
+    )
 
 
 def _planar_bond_from_coords(
